@@ -59,6 +59,10 @@ def generate(rng, tier):
                            "charges": None, "groups": None, "mode": "identity"}
         spec["fraction"] = rng.choice([1.0, 1.0, 0.5])
         spec["replace_all"] = False
+        if rng.random() < 0.2:
+            # some bystander atoms stored outside the cell box: "every atom's position unchanged" means the stored position
+            spec["unwrap"] = {"picks": [rng.random() for _ in range(rng.randint(1, 3))],
+                              "shifts": [[rng.choice([-2, -1, -1, 0, 1, 1, 2]) for _ in range(3)] for _ in range(4)]}
         npat = len(spec["pattern"]["elements"])
         Pp = np.array(spec["pattern"]["positions"], float).reshape(-1, 3)
         # (only for patterns without a proper symmetry: otherwise the terms legitimately land on a symmetry-equivalent numbering)
@@ -207,6 +211,9 @@ def execute(spec, ctx):
     else:
         findcheck.check_domain(spec)
         findcheck.world_reach_counters(ctx, spec)
+        if spec.get("unwrap") and mode == "identity" and not spec.get("pattern_terms"):
+            spec = replcheck.add_outside_bystanders(spec, spec["unwrap"])[0]
+            ctx.count("identity_with_atoms_outside_the_cell_box")
         structure = replcheck.build_structure(spec)
         search = worlds.build_pattern(spec["pattern"])
         replace = replcheck.build_replacement(spec["replace"])
